@@ -187,6 +187,7 @@ let eval (op : string) (a : string list) : string =
        if op = "pgr" then String.concat ";" (List.rev !trace) ^ " " ^ fin else fin)
   | "pgc", [_; _] -> "ok"
   | "wf", [_; _; _] -> "ok"
+  | "wa", [_; _; _] -> "res=nil reqs=1 log=once"
   | _ -> "BADCASE"
 
 let () =
